@@ -179,13 +179,16 @@ def addEdge (g : G) (e : Edge) : G := if e ∈ g.edges then g else { g with edge
 
 /-! ### port.py -/
 
-/-- the four checks of `Subscription.__new__`, in order; `none` = the subscription is created -/
+/-- the checks of `Subscription.__new__`, in order (a `Future` is refused before the registry is touched; the
+group rule - no other member of the worker's group is trained - is made here for every `Train`/`Label` subscription,
+whatever API creates it: `fixes/C11-group-rule-in-subscription.diff`); `none` = the subscription is created -/
 def subscription (g : G) (s : Sub) : Option Err :=
   let ps := inputs g s.node
-  if s.port ∈ ps then some .double
+  if isFuture g s.node then some .futureSubscribing
+  else if s.port ∈ ps then some .double
   else if !ps.isEmpty && (s.port.isApply != ps.any Port.isApply) then some .collision
   else if !s.port.isApply && publishes g s.node then some .publishingTrained
-  else if isFuture g s.node then some .futureSubscribing
+  else if !s.port.isApply && (group g s.node).any (fun m => m != s.node && trained g m) then some .forkTrain
   else none
 
 /-- publishers registered on input `idx` of the future `f` (`p for p, i in f._input.items() if i == idx`),
@@ -312,11 +315,11 @@ def subscribe (g : G) (s j p pi : Nat) : G × Res :=
   else if isFuture g s then register g s j p pi
   else publish g p pi ⟨s, .apply j⟩
 
-/-- `p[pi].publish(s, Apply(k))` (the publishing side of the port API; a `Future` subscriber registers the
-publisher under the `Apply`-typed index `k`) -/
-def publishOp (g : G) (p pi s k : Nat) : G × Res :=
+/-- `p[pi].publish(s, port)` for any port kind - `Apply(k)`, `Train()`, `Label()` - (the publishing side of the
+port API; a `Future` subscriber registers the publisher under the port-typed index `int(port)`) -/
+def publishOp (g : G) (p pi s : Nat) (port : Port) : G × Res :=
   if g.nodes.length ≤ s ∨ g.nodes.length ≤ p then (g, .err .noNode)
-  else publish g p pi ⟨s, .apply k⟩
+  else publish g p pi ⟨s, port⟩
 
 /-- `Worker.train(train, label)`: the train publish is withdrawn again when the label publish raises -/
 def train (g : G) (n tp ti lp li : Nat) : G × Res :=
@@ -726,8 +729,8 @@ inductive Op where
   | fork (n : Nat)
   /-- `s[j].subscribe(p[pi])` -/
   | subscribe (s j p pi : Nat)
-  /-- `p[pi].publish(s, Apply(k))` -/
-  | publish (p pi s k : Nat)
+  /-- `p[pi].publish(s, port)` -/
+  | publish (p pi s : Nat) (port : Port)
   /-- `n.train(tp[ti], lp[li])` -/
   | train (n tp ti lp li : Nat)
   | segment (h : Nat) (t : Option Nat)
@@ -749,7 +752,7 @@ def step (g : G) : Op → G × Res
   | .mkFuture i o => mkFuture g i o
   | .fork n => fork g n
   | .subscribe s j p pi => subscribe g s j p pi
-  | .publish p pi s k => publishOp g p pi s k
+  | .publish p pi s port => publishOp g p pi s port
   | .train n tp ti lp li => train g n tp ti lp li
   | .segment h t => (g, segment g h t)
   | .validate h t => (g, validate g h t)
